@@ -57,6 +57,202 @@ class BitsMachine(Machine):
         raise NotImplementedError
 
 
+
+# ---- R-inverse / R-stream: writer and readers agree, bit for bit -------------------------------------------
+
+def _bits_of(fields):
+    out = []
+    for w, v in fields:
+        out += [(v >> (w - 1 - i)) & 1 for i in range(w)]
+    return out
+
+
+def _octets(bits):
+    bits = bits + [0] * (-len(bits) % 8)
+    return [sum(b << (7 - i) for i, b in enumerate(bits[k:k + 8])) for k in range(0, len(bits), 8)]
+
+
+def _values(w):
+    m = (1 << w) - 1
+    return sorted({m, 1 << (w - 1), 1, 0xA5A5A5A5 & m, 0x5A5A5A5A & m})
+
+
+def check_inverse(rep, prog, tier):
+    """ubits_put ... ubits_clean, then ubits_get over the same memory: concrete interpretation over every pair of
+    widths (and triples of the boundary widths) with one-hot / all-ones / alternating values"""
+    import itertools
+    from upv import ghost
+    H = prog.hdr
+    rep.rule('R-inverse', 'for every sequence of 1..3 fields (all pairs of widths 1..32; triples over 1, 7, 8, 9, 16, 24, 25, 31, 32) written with ubits_put '
+             'and flushed with ubits_clean into a buffer of exactly ceil(total/8) octets (and of one octet less): the octets produced are those of the '
+             'reference bit string, their number is ceil(total/8), ubits_get over the same memory returns every value; with the short buffer the overflow '
+             'is reported and nothing is written outside; values are the all-ones, top-bit, low-bit and alternating patterns of each width (a wrong '
+             'shift or mask moves at least one of them)')
+    S = ('obj', 's')
+
+    class M(ghost.BlockMachine):
+        def __init__(self, size, mem=None):
+            ghost.BlockMachine.__init__(self, prog, H, 'ubits', {})
+            self.regions['buf'] = size
+            if mem:
+                self.mem.update(mem)
+            self.inline = ('ubits_',)
+    seqs = [[w] for w in range(1, 33)] + [list(p) for p in itertools.product(range(1, 33), repeat=2)]
+    edge = (1, 7, 8, 9, 16, 24, 25, 31, 32)
+    seqs += [list(p) for p in itertools.product(edge, repeat=3)]
+    if tier == 'quick':
+        seqs = [q for q in seqs if len(q) < 3 or (q[0] in (1, 8, 25, 32) and q[2] in (1, 9, 24, 32))]
+    nruns = 0
+    seen = set()
+    for ws in seqs:
+        total = sum(ws)
+        nbytes = (total + 7) // 8
+        # the values: all fields all-ones; then each field in turn with each pattern, the others alternating
+        combos = [[(w, (1 << w) - 1) for w in ws]]
+        for i, w in enumerate(ws):
+            for v in _values(w):
+                combos.append([(x, (0x5A5A5A5A & ((1 << x) - 1)) if j != i else v) for j, x in enumerate(ws)])
+        for fields in combos[:7] if tier == 'quick' else combos:
+            for short in (0, 1):
+                size = nbytes - short
+                if size < 0:
+                    continue
+                nruns += 1
+                inst = 'widths=%s,values=%s,room=%d' % ('+'.join(map(str, ws)), '/'.join('%x' % v for _, v in fields), size)
+                what = None
+                try:
+                    m = M(size)
+                    m.run(H.funcs['ubits_init'], [S, ('p', 'buf', 0), size, UBITS_WRITE])
+                    for w, v in fields:
+                        m.run(H.funcs['ubits_put'], [S, w, v])
+                    err = m.run(H.funcs['ubits_clean'], [S, ('addr', 'field', S, 'ubits', 'end_out')])
+                    end = m.f.get('end_out')
+                    want = _octets(_bits_of(fields))
+                    if short:
+                        if err == 0 and not m.f.get('overflow'):
+                            what = 'writing %d bits into %d octets reports no overflow' % (total, size)
+                    else:
+                        got = [m.mem.get(('buf', i)) for i in range(size)]
+                        if err != 0:
+                            what = 'ubits_clean reports error %r although the buffer has room' % (err,)
+                        elif not (isinstance(end, tuple) and end[0] == 'p' and end[2] == nbytes):
+                            what = 'ubits_clean says %r octets were produced, expected %d' % (end[2] if isinstance(end, tuple) else end, nbytes)
+                        elif got != want:
+                            what = 'octets written %s, reference %s' % (' '.join('%02x' % (x if isinstance(x, int) else 0x100) for x in got), ' '.join('%02x' % x for x in want))
+                        else:
+                            r = M(size, mem=m.mem)
+                            r.run(H.funcs['ubits_init'], [S, ('p', 'buf', 0), size, UBITS_READ])
+                            for w, v in fields:
+                                g = r.run(H.funcs['ubits_get'], [S, w])
+                                if g != v:
+                                    what = 'field of %d bits written as %#x reads back as %s' % (w, v, ('%#x' % g) if isinstance(g, int) else g)
+                                    break
+                            if what is None and r.f.get('overflow'):
+                                what = 'reading back exactly what was written reports an overflow'
+                except Finding as f:
+                    what = str(f)
+                except Undecided as u:
+                    rep.add('R-inverse', inst, UNDECIDED, H.funcs['ubits_put'].loc, why=str(u))
+                    continue
+                except absint.PathEnd:
+                    what = 'an assert() fails'
+                if what:
+                    key = what.split(',')[0][:40]
+                    if key in seen:
+                        continue
+                    seen.add(key)
+                    rep.add('R-inverse', inst, VIOLATED, H.funcs['ubits_put'].loc, what=what)
+                else:
+                    rep.add('R-inverse', inst, HOLDS, H.funcs['ubits_put'].loc)
+    rep.tables['R-inverse'] = {'abstract_runs': nruns, 'width_sequences': len(seqs)}
+
+
+def check_stream(rep, repo, tier):
+    """the block bit-stream reader over every segmentation of the same octets (macros instantiated in stubs/wrappers/c18_stream.c)"""
+    import itertools
+    import os
+    from upv import ghost
+    wpath = os.path.join(facts.VERIF, 'stubs', 'wrappers', 'c18_stream.c')
+    prog = facts.load_program([wpath], repo=repo)
+    u = prog.units[wpath]
+    H = prog.hdr
+    for n in ('upv_c18_read_bits', 'upv_c18_peek_bits'):
+        if n not in u.funcs or not u.funcs[n].blocks:
+            raise facts.AnalysisBroken('wrapper vanished: %s' % n)
+    rep.rule('R-stream', 'ubuf_block_stream_init, then fill_bits / show_bits / skip_bits (the macros of /repo\'s header, instantiated in two three-line '
+             'wrappers) over a ghost block of 6 concrete octets cut into every segmentation of at most 3 segments: every sequence of 1..3 reads of widths '
+             'from 1..25 (each width alone, all pairs over the boundary widths, look-ahead of 24 then 25 bits) returns the bits of the reference string, '
+             'reports overflow exactly when the data is exhausted, reads nothing outside a mapped window')
+    S = ('obj', 's')
+    data = [0xA5, 0xFF, 0x01, 0x80, 0x7E, 0xC3]
+    bits = _bits_of([(8, x) for x in data])
+
+    class M(ghost.BlockMachine):
+        def __init__(self, segs):
+            ghost.BlockMachine.__init__(self, prog, u, 'ubuf_block_stream', {})
+            self.inline = ('ubuf_block_stream_', 'upv_c18_')
+            self.ub = self.new_buf(list(data))
+            self.bufs[self.ub[1]].segs = list(segs) if len(segs) > 1 else None
+
+    def comps(n, k=3):
+        for parts in range(1, k + 1):
+            for cuts in itertools.combinations(range(1, n), parts - 1):
+                b = [0] + list(cuts) + [n]
+                yield [b[i + 1] - b[i] for i in range(parts)]
+    edge = (1, 7, 8, 9, 15, 16, 17, 23, 24, 25)
+    plans = [[('read', w)] for w in range(1, 26)]
+    plans += [[('read', a), ('read', b)] for a in edge for b in edge]
+    plans += [[('peek', 24), ('read', 25)], [('peek', 16), ('read', 25)], [('read', 3), ('peek', 24), ('read', 25)],
+              [('read', 8), ('peek', 24), ('read', 25)], [('read', 25), ('read', 23)], [('read', 24), ('read', 24)]]
+    nruns = 0
+    seen = set()
+    segl = list(comps(len(data)))
+    if tier == 'quick':
+        segl = [x for x in segl if len(x) < 3 or x[0] in (1, 3)]
+    for segs in segl:
+        for plan in plans:
+            nruns += 1
+            inst = 'segs=%s,%s' % ('+'.join(map(str, segs)), ','.join('%s%d' % (k[0], w) for k, w in plan))
+            what = None
+            try:
+                m = M(segs)
+                m.run(H.funcs['ubuf_block_stream_init'], [S, m.ub, 0])
+                pos = 0
+                for kind, w in plan:
+                    fn = u.funcs['upv_c18_read_bits' if kind == 'read' else 'upv_c18_peek_bits']
+                    g = m.run(fn, [S, w])
+                    ref = bits[pos:pos + w]
+                    short = len(ref) < w
+                    ref = ref + [0] * (w - len(ref))
+                    want = sum(b << (w - 1 - i) for i, b in enumerate(ref))
+                    if g != want:
+                        what = '%s of %d bits at bit %d returns %s, the stream holds %#x' % (kind, w, pos, ('%#x' % g) if isinstance(g, int) else g, want)
+                        break
+                    if bool(m.f.get('overflow')) != short and short:
+                        what = 'reading past the end of the data is not reported as overflow'
+                        break
+                    if kind == 'read':
+                        pos += w
+                if what is None and pos <= len(bits) - 8 and m.f.get('overflow'):
+                    what = 'overflow reported although %d bits remain' % (len(bits) - pos)
+            except Finding as f:
+                what = str(f)
+            except Undecided as e:
+                rep.add('R-stream', inst, UNDECIDED, u.funcs['upv_c18_read_bits'].loc, why=str(e))
+                continue
+            except absint.PathEnd:
+                what = 'an assert() of the stream macros fails'
+            if what:
+                key = what.split(' at bit')[0][:50]
+                if key in seen:
+                    continue
+                seen.add(key)
+                rep.add('R-stream', inst, VIOLATED, 'include/upipe/ubuf_block_stream.h', what=what)
+            else:
+                rep.add('R-stream', inst, HOLDS, 'include/upipe/ubuf_block_stream.h')
+    rep.tables['R-stream'] = {'abstract_runs': nruns, 'segmentations': len(segl), 'plans': len(plans)}
+
+
 def run(tier='quick', repo=None):
     repo = repo or facts.REPO
     rep = Report(PROP, tier)
@@ -144,6 +340,8 @@ def run(tier='quick', repo=None):
         one('ubuf_block_stream_init_bits', 'offset=%d' % off,
             {'bits': SYM, 'available': 0, 'overflow': 0, 'ubuf': ('null',)}, {}, [S, ('obj', 'ubuf'), off], inv(0, 32))
     rep.tables['abstract_runs'] = stats
+    check_inverse(rep, prog, tier)
+    check_stream(rep, repo, tier)
     rep.tables['invariants'] = {'ubits write mode': 'available in [1,32]', 'ubits read mode': 'available in [0,8]', 'ubuf_block_stream': 'available in [0,32]'}
     rep.assumptions = ['callers respect assert(nb && nb <= 32) (the asserted pre-condition bounds the domain)',
                        'buffers longer than 5 octets behave like 5 for the bounds checks of these functions (each call consumes at most 5 octets)']
